@@ -12,7 +12,7 @@ ALL = []
 class H:
     def __init__(self, name, mod, family, quick=(), thorough=(), timeout=600, mem_gb=10,
                  allow=(), canary=None, stubs=(), bounds=None, funcs=(), inst="",
-                 unwind_is_claim=False, extra_args=(), cost=30, note=""):
+                 unwind_is_claim=False, extra_args=(), cost=30, note="", exempt=()):
         self.name = name
         self.mod = mod
         self.family = family
@@ -30,6 +30,7 @@ class H:
         self.extra_args = list(extra_args)
         self.cost = cost                  # rough seconds, for scheduling (longest first)
         self.note = note
+        self.exempt = list(exempt)       # regexes: REACH covers that this instance cannot reach by construction
         ALL.append(self)
 
     @property
@@ -128,6 +129,67 @@ for m in (1, 8, 16):
       timeout=1200, cost=60, stubs=STUB_NULL, inst="Bump<%d>" % m, funcs=F4_FUNCS, unwind_is_claim=True,
       bounds={"arena": "chunk-less (static sentinel)", "limit": "any Option<usize>", "request_size": "0", "request_align": "<= 4096",
               "unwind": 16, "allocator": "A-null"})
+
+
+# ---------------------------------------------------------------------------
+# F6 lifecycle: reset / drop over hand-made, ledger-registered chunk lists
+# ---------------------------------------------------------------------------
+STUB_POOL = ["core_alloc::alloc::alloc->alloc_pool", "core_alloc::alloc::dealloc->dealloc_pool"]
+F6_FUNCS = ["Bump::reset", "<Bump as Drop>::drop", "dealloc_chunk_list", "Bump::allocated_bytes", "Bump::allocated_bytes_including_metadata",
+            "Bump::iter_allocated_chunks", "ChunkRawIter::next", "Bump::chunk_capacity", "Bump::try_alloc_layout"]
+for (m, k) in [(1, 0), (1, 1), (1, 2), (1, 3), (16, 0), (16, 1), (16, 2), (16, 3), (8, 2), (8, 3), (4, 3), (2, 3)]:
+    q = []
+    if (m, k) in [(1, 0), (1, 2), (16, 3)]:
+        q = ["C03", "C06", "C08"]
+    H("f6_life_m%d_k%d" % (m, k), "__verif::f6", "F6", quick=q, thorough=["C03", "C06", "C08"], timeout=1500, cost=70 + 30 * k,
+      stubs=STUB_POOL, inst="Bump<%d>" % m, funcs=F6_FUNCS,
+      bounds={"chunks_before": k, "chunk_usable_sizes": [448, 960, 1984][:k], "finger_positions": "any (symbolic, per chunk)",
+              "limit": "any Option<usize>", "scenario": "symbolic choice of {drop, reset.drop, reset.reset.drop, reset.alloc(any size <= capacity).drop}",
+              "allocator": "A-pool ledger (hand-made chunks registered as handed out)", "unwind": 5})
+
+
+# ---------------------------------------------------------------------------
+# F3 slow-commit: one real try_alloc_layout acquiring a chunk from A-pool
+# ---------------------------------------------------------------------------
+F3_FUNCS = ["Bump::try_alloc_layout", "Bump::alloc_layout_slow", "Bump::new_chunk", "Bump::new_chunk_memory_details",
+            "Bump::allocation_limit_remaining", "Bump::chunk_fits_under_limit", "Bump::try_alloc_layout_fast",
+            "Bump::allocated_bytes", "Bump::allocated_bytes_including_metadata"]
+# (M, K, size, align, displacement, finger offset, unwind, limit or None=symbolic, exempt REACH covers)
+F3_LIST = [
+    (1, 1, 400, 1, 0, 8, 5, None, []),
+    (1, 1, 24, 8, 1, 16, 5, None, []),
+    (8, 1, 100, 4, 3, 96, 5, None, []),
+    (16, 1, 1, 1, 1, 0, 5, None, []),
+    (1, 1, 64, 64, 1, 32, 5, None, []),
+    (1, 1, 0, 1, 0, 0, 5, None, [r"new chunk obtained|request failed"]),
+    (1, 1, 900, 16, 3, 448, 5, None, []),
+    (1, 2, 700, 8, 1, 600, 5, None, []),
+    (16, 2, 700, 32, 1, 960, 5, None, []),
+    (1, 0, 5, 1, 1, 0, 4, None, []),
+    (16, 0, 0, 64, 1, 0, 4, None, []),
+    (4, 0, 300, 2, 3, 0, 4, None, []),
+    (1, 0, 5, 1, 0, 0, 14, 100, []),
+    (8, 0, 0, 8, 1, 0, 14, 64, []),
+    (1, 0, 1, 1, 0, 0, 14, 10, [r"new chunk obtained"]),
+]
+F3_QUICK = {(1, 1, 400, 1, None): ["C01", "C03", "C07", "C08", "C09"], (16, 1, 1, 1, None): ["C04", "C03"], (1, 0, 5, 1, None): ["C09", "C08"],
+            (1, 1, 64, 64, None): ["C04", "C01"], (1, 2, 700, 8, None): ["C18", "C03"], (1, 0, 5, 1, 100): ["C07"]}
+for (m, k, sz, al, dp, off, uw, lim, ex) in F3_LIST:
+    nm = "f3_commit_m%d_k%d_s%d_a%d_d%d" % (m, k, sz, al, dp) + ("" if lim is None else "_l%d" % lim)
+    H(nm, "__verif::f3", "F3",
+      quick=F3_QUICK.get((m, k, sz, al, lim), []),
+      thorough=["C01", "C03", "C04", "C07", "C08", "C09", "C10", "C18"], timeout=2400, mem_gb=16, cost=120,
+      stubs=STUB_POOL, inst="Bump<%d>" % m, funcs=F3_FUNCS, unwind_is_claim=True, exempt=ex,
+      bounds={"chunks_before": k, "finger_of_current_chunk": "offset %d (concrete per instance)" % off,
+              "request": "size %d align %d (concrete per instance; all-size arithmetic is decided by F1/F4/F5)" % (sz, al),
+              "limit": "any Option<usize>" + (" (>= 448 when set: bypass excluded)" if k == 0 else "") if lim is None else "Some(%d)" % lim,
+              "refusal_mask": "any subset of the first 8 global-allocator requests (symbolic)",
+              "block_displacement": "%d x requested chunk alignment (concrete per instance)" % dp, "pool_slot_bytes": 1136,
+              "block_placement": "end-aligned in the slot", "unwind": uw})
+
+
+for x in "abcdef":
+    H("x_f3_" + x, "__verif::xp", "X", timeout=600, mem_gb=12)
 
 
 def by_name(n):
